@@ -5,7 +5,7 @@
 set -u
 cd "$(dirname "$0")/.."
 export GOFLAGS=-mod=mod GOPROXY=off
-mdir=$1; tier=$2; shift 2
+mdir=$(cd "$1" && pwd); tier=$2; shift 2
 name=$(basename "$mdir")
 wt=/tmp/evalmut-$name-$$
 git -C /repo worktree add --detach "$wt" >/dev/null 2>&1 || { echo "cannot create worktree"; exit 2; }
